@@ -138,6 +138,8 @@ where
     /// This is used while unwinding a panic: peers must leave their wait loops, but the panic—not
     /// [`AbortReason`]—remains the authoritative failure signal.
     pub(super) fn cancel(&self) {
+        #[cfg(feature = "verif-hooks")]
+        crate::verif::rt::pt("abort_store");
         self.abort.store(true, Ordering::Release);
         self.finality_wait.notify();
         self.commit_wait.notify();
